@@ -101,24 +101,10 @@ def _template_term(a):
             return None
         exprs = [z3.simplify(v.v), zb(v.nan)]
     exprs += [zi(n) if not is_pyint(n) else z3.IntVal(n) for n in a.shape]
-    bids = {b.get_id() for b in bvs}
-    free, seen = [], set()
-    for e in exprs:
-        st = [e]
-        while st:
-            x = st.pop()
-            if x.get_id() in seen:
-                continue
-            seen.add(x.get_id())
-            if z3.is_const(x) and x.decl().kind() == z3.Z3_OP_UNINTERPRETED and x.get_id() not in bids \
-                    and x.sort() in (z3.IntSort(), z3.RealSort(), z3.BoolSort(), Mat):
-                free.append(x)
-                continue
-            st.extend(reversed(x.children()))
-    holes = [z3.Const(f"hole!{j}", x.sort()) for j, x in enumerate(free)]
-    pairs = list(zip(free, holes)) + list(zip(bvs, canon))
-    key = ("matrix-template", tuple((z3.substitute(e, *pairs) if pairs else e).sexpr() for e in exprs),
-           tuple(str(x.sort()) for x in free))
+    sub = list(zip(bvs, canon))
+    exprs = [z3.substitute(e, *sub) for e in exprs]
+    tk, free = sym.template_of(exprs, {b.get_id() for b in canon}, sorts=(z3.IntSort(), z3.RealSort(), z3.BoolSort(), Mat))
+    key = ("matrix-template", tk)
     decl = c.memo.get(key)
     if decl is None:
         nm = c.fresh_name("MAT")
